@@ -63,12 +63,7 @@ def analyse(prop: str, repo: str) -> Tuple[str, List[dict]]:
 
         finalize(run)
     except Exception as e:  # noqa
-        # findings made before a rule gave up are reported by ./check as well (see there)
-        fs_ = []
-        if type(e).__name__ == "AnalysisError" and "run" in locals():
-            known_ = load_known()
-            fs_ = [f.to_json() for f in run.findings if match_known(known_, f) is None]
-        return f"error: {type(e).__name__}: {e}", fs_
+        return f"error: {type(e).__name__}: {e}", []
     known = load_known()
     return "ok", [f.to_json() for f in run.findings if match_known(known, f) is None]
 
